@@ -299,6 +299,126 @@ def make_classes(r, tag, n_classes=6, n_enums=3):
     return classes, enums
 
 
+def make_header_classes(r, tag, inner_classes=(), n_classes=4, n_enums=2):
+    """user classes / enums that customise the documented ``serialize_header(stream)`` hook CONSISTENTLY: whatever the header
+    writes after the two-byte type id (a format version of 1-4 raw bytes, an encoded schema value), the class's own
+    ``deserialize()`` reads back and checks before it reads the body.  Such a class is an ordinary member of the supported grammar:
+    it round-trips alone and wherever a value may stand (element, key, member, field of another message).
+    Returns (classes, enums) shaped like make_classes' (classes carry ._make(gen, depth), enums carry ._members)."""
+    from mpgameserver import serializable as _S
+    Serializable, SerializableEnum = _S.Serializable, _S.SerializableEnum
+    import typing
+
+    def hooks(base, kind):
+        if kind == "raw":
+            extra = r.randbytes(r.randint(1, 4))
+
+            def _hdr(self, stream, _extra=extra, _base=base):
+                _base.serialize_header(self, stream)
+                stream.write(_extra)
+
+            def _deser(self, stream, _extra=extra, _base=base, **kwargs):
+                got = stream.read(len(_extra))
+                if got != _extra:
+                    raise ValueError("%s: unsupported format version %r" % (type(self).__name__, got))
+                return _base.deserialize(self, stream, **kwargs)
+        else:
+            # the header extension is itself an encoded value (a schema name, a revision number, a (major, minor) pair)
+            extra = r.choice(["v2", "schema-é", 3, 70000, -1, (1, 4), b"\x00\x01", None, True])
+            want = canon(extra)
+
+            def _hdr(self, stream, _extra=extra, _base=base):
+                _base.serialize_header(self, stream)
+                _S.serialize_value(stream, _extra)
+
+            def _deser(self, stream, _want=want, _base=base, **kwargs):
+                got = _S.deserialize_value(stream)
+                if canon(got) != _want:
+                    raise ValueError("%s: unsupported format revision %r" % (type(self).__name__, got))
+                return _base.deserialize(self, stream, **kwargs)
+        return _hdr, _deser
+
+    enums, classes = [], []
+    for i in range(n_enums):
+        _COUNTER[0] += 1
+        kind = "int" if i % 2 == 0 else "str"
+        names = ["NORTH", "EAST", "SOUTH", "WEST"][:r.randint(2, 4)]
+        ns = {}
+        for j, nm in enumerate(names):
+            ns[nm] = (j + 1) * r.choice([1, 9, 400, -3]) if kind == "int" else nm.lower() + str(j)
+        ns["serialize_header"], ns["deserialize"] = hooks(SerializableEnum, "raw" if r.random() < 0.6 else "value")
+        E = type("EH%s_%d" % (tag, _COUNTER[0]), (SerializableEnum,), ns)
+        E._members = [getattr(E, nm) for nm in names]
+        enums.append(E)
+    for i in range(n_classes):
+        _COUNTER[0] += 1
+        shape = i % 4
+        base = Serializable
+        ns = {"__annotations__": {}}
+        fields = []
+        if shape == 3 and inner_classes:
+            # the hook overridden in a subclass of an ordinary user class (own fields only are encoded, under the subclass's id)
+            plain = [c for c in inner_classes if "serialize" not in c.__dict__ and "deserialize" not in c.__dict__ and c.__mro__[1] is Serializable]
+            if plain:
+                base = r.choice(plain)
+        for j in range(r.randint(0 if shape != 1 else 1, 5)):
+            fname = r.choice(["h", "rev", "payload", "k", "Name", "items"]) + str(j)
+            default, ann = r.choice([(None, object), (None, object), (0, int), ("", str), (0.5, float), (False, bool), (None, list), (None, dict),
+                                     (None, typing.List[int]), (b"", bytes)])
+            ns[fname] = default
+            ns["__annotations__"][fname] = ann
+            fields.append(fname)
+        ns["serialize_header"], ns["deserialize"] = hooks(base, "raw" if i % 2 == 0 else "value")
+        C = type("SH%s_%d" % (tag, _COUNTER[0]), (base,), ns)
+
+        def _make(gen, depth, _C=C, _fields=tuple(fields), _enums=tuple(enums), _peers=tuple(classes), _shape=shape):
+            o = _C()
+            for k, f in enumerate(_fields):
+                x = gen.r.random()
+                if _shape == 1 and k == 0 and _peers and depth < 5:
+                    # a header-customising object as a FIELD of another header-customising message
+                    setattr(o, f, gen.r.choice(_peers)._make(gen, depth + 1))
+                elif x < 0.15:
+                    setattr(o, f, None)
+                elif x < 0.25:
+                    pass
+                elif x < 0.40 and _enums:
+                    setattr(o, f, gen.r.choice(gen.r.choice(_enums)._members))
+                else:
+                    setattr(o, f, gen.value(depth + 1) if depth < 5 else gen.scalar())
+            return o
+        C._make = staticmethod(_make)
+        classes.append(C)
+    return classes, enums
+
+
+def custom_header_depths(v, depth=0, out=None):
+    """the nesting depths (0 = the value itself) at which v holds an instance of a class / enum whose serialize_header is not the
+    library's own"""
+    from mpgameserver.serializable import Serializable, SerializableEnum
+    if out is None:
+        out = set()
+    if depth > 12:
+        return out
+    t = type(v)
+    if t in (list, tuple, set):
+        for x in v:
+            custom_header_depths(x, depth + 1, out)
+    elif t is dict:
+        for k, x in v.items():
+            custom_header_depths(k, depth + 1, out)
+            custom_header_depths(x, depth + 1, out)
+    elif isinstance(v, SerializableEnum):
+        if t.serialize_header is not SerializableEnum.serialize_header:
+            out.add(depth)
+    elif isinstance(v, Serializable):
+        if t.serialize_header is not Serializable.serialize_header:
+            out.add(depth)
+        for f in t._fields:
+            custom_header_depths(getattr(v, f, None), depth + 1, out)
+    return out
+
+
 def out_of_domain(r):
     """values the statement requires to be refused"""
     class IntSub(int):
@@ -368,4 +488,68 @@ def boundary_strings(r, shard, nshards):
     if shard % 4 == 0:
         out.append(("str-3-byte-run-200KiB", "\u4e2d" * 70000))
         out.append(("str-mixed-run-150KiB", ("a\u00e9\u4e2d\U0001f600" * 15000)))
+    return out
+
+
+# ----- attribute names of generated classes (additive: used by C15; nothing above depends on it)
+# The library takes as a field every class attribute whose name does not start with "_", is not "type_id" and whose class-level
+# value is not callable - the documentation puts no other condition on the name.  So the domain is: every Python identifier a
+# class body can bind (no keywords) that does not start with "_", is not "type_id" and does not hide a member of Serializable.
+FIELD_NAME_POOLS = {
+    "lower": ["a", "val", "items", "name", "position", "facing", "score", "health", "msg", "data", "keys", "values", "fields", "record", "kind"],
+    "single-lower": list("abcdefghijklmnopqrstuvwxyz"),
+    "single-upper": list("ABCDEFGHIJKLMNOPQRSTUVWXYZ"),
+    "all-upper": ["ID", "HP", "MP", "XP", "POS", "TAGS", "UID", "RGB", "FPS", "TTL", "DX", "DY", "URL", "OK", "NAME"],
+    "all-upper-snake": ["SCORE_BY_ID", "MAX_SPEED", "PLAYER_ID", "ROOM_NAME", "IS_READY", "POS_X", "POS_Y", "TEAM_A", "N_COUNT"],
+    "all-upper-digit": ["X1", "Y2", "P2", "HP2", "V0", "IPV4", "P1_SCORE", "SLOT_3", "UTF8", "MD5"],
+    "leading-upper": ["Name", "Position", "PlayerId", "Score", "Items", "Xpos", "Ypos", "HPmax", "IsReady", "RoomName", "Data2", "Player_Id"],
+    "mixed-case": ["playerId", "roomName", "isReady", "maxHP", "posX", "posY", "nPlayers", "rgbA", "x_Max", "tagsByID"],
+    "lower-snake-digit": ["player_id", "room_name", "v_1", "a1b2", "x__y", "slot_3", "p2_score", "utf8", "n_0", "is_ready2", "x1", "y_2"],
+    "trailing-underscore": ["id_", "class_", "type_", "from_", "X_", "ID_", "list_", "name__", "Pass_", "in_"],
+    "builtin-like": ["id", "type", "len", "list", "dict", "set", "str", "int", "min", "max", "hash", "next", "cls", "json", "object", "input"],
+    "non-ascii": ["größe", "名前", "Ω", "ÉTAT", "naïve", "Ünit", "позиция", "ΔX"],
+}
+
+
+def name_family(name):
+    """structural class of an attribute name (for coverage counters and messages)"""
+    if not name.isascii():
+        return "non-ascii-upper" if name.isupper() else "non-ascii"
+    if len(name) == 1:
+        return "single-upper" if name.isupper() else "single-lower"
+    if name.endswith("_"):
+        return "trailing-underscore"
+    if name.isupper():
+        return "all-upper-digit" if any(ch.isdigit() for ch in name) else ("all-upper-snake" if "_" in name else "all-upper")
+    if name.islower():
+        return "lower-snake-digit" if ("_" in name or any(ch.isdigit() for ch in name)) else "lower"
+    return "leading-upper" if name[0].isupper() else "mixed-case"
+
+
+def is_field_name(name):
+    """is `name` in the domain of attribute names the unchanged library documents/accepts as a field of a Serializable class"""
+    import keyword
+    from mpgameserver.serializable import Serializable
+    return (isinstance(name, str) and name.isidentifier() and not keyword.iskeyword(name) and not name.startswith("_")
+            and name != "type_id" and not hasattr(Serializable, name))
+
+
+def field_names(r, n, taken=()):
+    """n distinct field names, each from a family of FIELD_NAME_POOLS drawn uniformly (a name already used in the class gets
+    another draw, then a digit - which keeps an upper-case name upper-case and a lower-case one lower-case)"""
+    used = set(taken)
+    out = []
+    fams = sorted(FIELD_NAME_POOLS)
+    while len(out) < n:
+        fam = r.choice(fams)
+        name = r.choice(FIELD_NAME_POOLS[fam])
+        if name in used or not is_field_name(name):
+            name = r.choice(FIELD_NAME_POOLS[fam])
+        k = 0
+        base = name
+        while name in used or not is_field_name(name):
+            k += 1
+            name = "%s%d" % (base, k)
+        used.add(name)
+        out.append(name)
     return out
